@@ -82,7 +82,7 @@ func upgradeDumpBody(r *Run) {
 	// storage-level perturbations in the shapes found in the dumps
 	notaryFlag := Weighted(t, "notaryFlag", []int{50, 20, 15, 15}) // 0 as dumped, 1 absent, 2 false, 3 true
 	ballots := Weighted(t, "ballots", []int{42, 12, 12, 16, 18})   // 0 as dumped, 1 absent, 2 empty list, 3 stale (height far in the past is impossible on a short chain: see below), 4 one ballot whose last vote lies 19..22 blocks before the update
-	const ballotAt = 8 // height recorded in the class-4 ballot
+	const ballotAt = 8                                             // height recorded in the class-4 ballot
 	ballotAge := 19 + Pick(t, "ballotAge", 4)
 	extraAcc := rapid.IntRange(0, 3).Draw(t, "extraAccounts")
 	var extraFirst [3]byte
